@@ -6,34 +6,37 @@ import sys
 
 HERE = os.path.dirname(os.path.dirname(os.path.abspath(__file__)))
 
-TRUST = ("Trusted: Verus 0.2026.09.13+Z3, Kani 0.68+CBMC 6.11; the extractor's rewrite rules R1-R7; the environment "
+TRUST = ("Trusted: Verus 0.2026.09.13+Z3, Kani 0.68+CBMC 6.11; the extractor's rewrite rules R1-R11; the environment "
          "contracts marked //@trusted in the unit templates (listed again in the evidence file); machine integers exact.")
 
 CLAIMS = {
     # id: (decided text, outside text, technique, design_ref)
-    'C01': ("Decided for all inputs (Verus, unbounded): the durability chain Session::commit_transaction -> TransactionLogger::{log_commit, log_end} -> Pager::{push_to_log, flush_wal} -> WriteAheadLog::{push, perform_flush}: when COMMIT returns Ok the transaction's COMMIT record is in what a reader obtains from the log file; every single block write the force issues only ever EXTENDS the readable log (crash cut between any two writes loses no forced record); block zero is written after the blocks it accounts for; dropping a committed session appends nothing; the analysis pass of recovery puts exactly the transactions whose last status record is COMMIT into the redo set (loop invariant over the whole log, any log); a checkpoint (Pager::flush) leaves an openable, empty log with every dirty page and the header written.",
-            "Outside (not claimed): that redo re-execution rebuilds table contents from the analysis result (logical DML/DDL through every layer), the relative order of page writes and log truncation inside the checkpoint, the autocommit closures in Database::execute, torn block writes, Pager::flush's checkpoint loop.",
+    'C01': ("Decided for all inputs (Verus, unbounded): the durability chain Session::commit_transaction -> TransactionLogger::{log_commit, log_end} -> Pager::{push_to_log, flush_wal} -> WriteAheadLog::{push, perform_flush}: when COMMIT returns Ok the transaction's COMMIT record is in what a reader obtains from the log file; every single block write the force issues only ever EXTENDS the readable log (crash cut between any two writes loses no forced record); block zero is written after the blocks it accounts for; dropping a committed session appends nothing; the analysis pass of recovery puts exactly the transactions whose last status record is COMMIT into the redo set (loop invariant over the whole log, any log); a checkpoint (Pager::flush) leaves an openable, empty log with every dirty page and the header written. Recovery dispatch (WalRecuperator::run_recovery/run_undo/run_redo): the undo pass runs first and calls only undo handlers, the redo pass only redo handlers, each only for transactions of its own analysis set. Write-ahead rule (DmlExecutor::insert/update/delete): on every path the log record naming this table and this row is appended before the table's tree is modified.",
+            "Outside (not claimed): what the redo/undo handlers do to table contents (logical DML/DDL through every layer), the autocommit closures in Database::execute, torn block writes.",
             "Verus contracts on verbatim-extracted functions; crash cuts as preconditions of the file-write primitive", "4 C01, Appendix A.2"),
-    'C02': ("Decided: ROLLBACK/abandoned sessions append an ABORT record of their own transaction before END (Verus, chain Session::abort_transaction -> log_abort -> push_to_log); Session::drop aborts only open transactions; WriteAheadLog::run_analysis computes redo = {last status record is COMMIT}, undo = {begun and not redone} and keys every DML/DDL record by its own LSN, for every log (Verus, loop invariant; lemma: the two sets are disjoint when ids are not reused); the aborted-transaction bitmap in page zero records and reports every tracked id exactly (Kani, full domain) and get_aborted_transactions reloads exactly the recorded ids (Verus).",
-            "Outside: WalRecuperator undo/redo application, page steal/write-back interplay; ids >= 8192 are a recorded known finding (C09).",
+    'C02': ("Decided: ROLLBACK/abandoned sessions append an ABORT record of their own transaction before END (Verus, chain Session::abort_transaction -> log_abort -> push_to_log); Session::drop aborts only open transactions; WriteAheadLog::run_analysis computes redo = {last status record is COMMIT}, undo = {begun and not redone} and keys every DML/DDL record by its own LSN, for every log (Verus, loop invariant; lemma: the two sets are disjoint when ids are not reused); the aborted-transaction bitmap in page zero records and reports every tracked id exactly (Kani, full domain) and get_aborted_transactions reloads exactly the recorded ids (Verus). The undo pass of recovery dispatches every logged operation of every transaction in the undo set to an undo handler and to nothing else (Verus, run_undo).",
+            "Outside: what the undo handlers do to table contents, page steal/write-back interplay; ids >= 8192 are a recorded known finding (C09).",
             "Verus contracts on extracted functions + complete Kani harnesses / function contract on the real crate", "4 C02"),
-    'C03': ("Decided for all inputs: a version created or deleted by an aborted transaction is treated by the visibility predicate exactly as if that transaction never ran (aborted creator => invisible, aborted deleter => ignored), TransactionCoordinator::snapshot copies the full aborted and active sets into every snapshot, and Tuple::delete stores exactly the deleter's id and nothing else (Kani on real bytes, every id below 2^63).",
-            "Outside: TransactionCoordinator::abort, statement-level atomicity of the executors, Tuple::add_version_with stamping (known defect, pinned test asserts it), DDL rollback.",
+    'C03': ("Decided for all inputs: a version created or deleted by an aborted transaction is treated by the visibility predicate exactly as if that transaction never ran (aborted creator => invisible, aborted deleter => ignored), TransactionCoordinator::snapshot copies the full aborted and active sets into every snapshot, and Tuple::delete stores exactly the deleter's id and nothing else (Kani on real bytes, every id below 2^63); DmlExecutor::insert/update/delete stamp every version they write with the writing transaction's own id and touch only rows their snapshot can see (Verus); Tuple::add_version_with increments the version number, leaves no delete mark and changes nothing on failure -- its obligation 'the new version is created by the writer' FAILS on the pinned tree and is the recorded known finding (the new version keeps the previous creator: rolled-back UPDATEs stay visible).",
+            "Outside: TransactionCoordinator::abort, statement-level atomicity of the executors, DDL rollback.",
             "Verus postconditions on verbatim-extracted functions", "4 C03"),
-    'C04': ("Decided for all inputs: the visibility predicate (Snapshot::is_committed_before_snapshot, is_tuple_visible, TupleLayout::is_valid_for_snapshot) equals the snapshot-isolation rule 'creator is the reader or committed before the reader began, deleter is neither'; TransactionCoordinator::snapshot always records an upper bound and the active/aborted sets; a lemma connects the predicate to a ghost history; repeatability (verdict is a function of snapshot and version header); TransactionCoordinator::commit never moves the snapshot horizon backwards; validate_write_set reports a conflict whenever a written tuple was committed at or after the writer's start, and otherwise stamps every written tuple with the commit timestamp it drew (first-committer-wins bookkeeping, sequential lock semantics).",
-            "Outside: that the executors call record_write (they do not today), the version-chain walk on raw tuple bytes, executors, schedules.",
+    'C04': ("Decided for all inputs: the visibility predicate (Snapshot::is_committed_before_snapshot, is_tuple_visible, TupleLayout::is_valid_for_snapshot) equals the snapshot-isolation rule 'creator is the reader or committed before the reader began, deleter is neither'; TransactionCoordinator::snapshot always records an upper bound and the active/aborted sets; a lemma connects the predicate to a ghost history; repeatability (verdict is a function of snapshot and version header); TransactionCoordinator::commit never moves the snapshot horizon backwards; validate_write_set reports a conflict whenever a written tuple was committed at or after the writer's start, and otherwise stamps every written tuple with the commit timestamp it drew (first-committer-wins bookkeeping, sequential lock semantics). TupleReader::parse_for_snapshot, on the byte-level delta chain of any well-formed stored tuple: a row deleted for the reader (deleter committed before it, or the reader itself) decodes to nothing, a returned version's creator is visible to the reader and is the NEWEST such version, and nothing is returned only if no version is visible (Verus, loop invariants over the chain). Known finding: Tuple::add_version_with stamps new versions with the previous creator.",
+            "Outside: that the executors call record_write (they do not today), schedules; the chain walk assumes the reader's own versions are on top (no write over another transaction's uncommitted version).",
             "Verus postconditions on verbatim-extracted functions", "4 C04, Appendix A.1"),
     'C05': ("Decided (Kani on the real evaluator, complete over the stated domains): AND/OR/NOT are Kleene three-valued logic over all 9/3 operand combinations; =,<>,<,<=,>,>= on INT agree with integer order for every pair; NULL operands propagate through every comparison and arithmetic operator; boolean context maps NULL to false; column bindings are bounds-checked; 32-bit add/sub are exact; arithmetic on non-numerics is an error; the ORDER BY comparator is antisymmetric, transitive and follows integer order / direction for every INT/NULL key. The Pratt parser's binding-power table puts OR < AND < comparison/LIKE/IN/BETWEEN/IS < additive/|| < multiplicative, all left-associative, NOT only before IN/BETWEEN/LIKE (Verus on infix_binding_power).",
             "Outside: IS NULL/BETWEEN/IN arms inside evaluate() (beyond the model checker's capacity here, DESIGN M15), the parser's prefix/driver code, joins, grouping, sort, DISTINCT, LIMIT, DML row addressing; induction over expression depth is stated, not machine-checked.",
             "complete Kani harnesses (loop-free, full-domain) on the real crate", "4 C05"),
-    'C09': ("Decided (Kani, full domain): page-zero header state that must survive close/reopen -- aborted bitmap set/test/clear exactness and frame, header construction (counters, config fields, aligned page size); reload of the bitmap returns exactly the recorded ids; a checkpoint writes the header and every dirty page and leaves an openable empty log (Verus).",
-            "Outside: catalog rows, free-list contents, overflow chains across reopen, Pager::sync_header I/O; ids >= 8192 are dropped by the bitmap (recorded known finding).",
-            "complete Kani harnesses + an injected Kani function contract on the real crate", "4 C09"),
-    'C10': ("Decided for all inputs (Verus): Btree::binary_search_page finds a key iff it is present on a sorted page and terminates; Btree::find_child_on_page routes to the child of the first separator greater than the key, else the right child; every cell index stays in bounds.",
+    'C09': ("Decided (Kani, full domain): page-zero header state that must survive close/reopen -- aborted bitmap set/test/clear exactness and frame, header construction (counters, config fields, aligned page size); reload of the bitmap returns exactly the recorded ids; a checkpoint writes the header and every dirty page and leaves an openable empty log (Verus). Pager::allocate_page / dealloc_page keep the free list recorded in page zero a well-formed chain (see C11) and every page they hand out or free is dirty or already written; every write latch marks its frame dirty before access (Verus); DmlExecutor::insert persists the incremented next-row-id of the table it inserted into.",
+            "Outside: catalog rows, overflow chains across reopen, Pager::sync_header I/O; ids >= 8192 are dropped by the bitmap (recorded known finding).",
+            "complete Kani harnesses + an injected Kani function contract on the real crate + Verus contracts on extracted pager functions", "4 C09"),
+    'C10': ("Decided for all inputs (Verus): Btree::binary_search_page finds a key iff it is present on a sorted page and terminates; Btree::find_child_on_page routes to the child of the first separator greater than the key, else the right child; every cell index stays in bounds. Btree::insert/upsert/update/search_tuple position on the key area of the tuple they are given; CellComparator::compare_keys is the lexicographic order of the key columns at their own byte positions.",
             "Outside: insert/remove/balance (800 lines over pager-backed pages), sibling links, overflow reassembly, the comparator's own correctness (assumed total order; see C19).",
             "Verus contracts with loop invariants on verbatim-extracted functions", "4 C10"),
-    'C12': ("Decided for all inputs (Verus): the page cache never loses a frame -- insert/evict/remove/clear keep every cached frame unless it is handed back to the caller, evict only free frames and always finds one if any exists, out-of-memory only when every frame is pinned, clear keeps the configured capacity; Pager::cache_frame writes every dirty evictee back as a whole page at its own page id before it leaves the cache; (Kani, full domain) DBConfig::new and the builder clamp page size to a power of two in [4096, 65536] for every input.",
-            "Outside: equality of results across configurations end-to-end, dirty marking on latches, worker pool.",
+    'C11': ("Decided for all inputs (Verus, unit pageralloc): against the abstract free list s (first_free = s[0], next(s[i]) = s[i+1], next(last) = None, last_free = s.last(), no duplicates) Pager::allocate_page returns s[0] and leaves the list s[1..] with the page count unchanged, or -- only when the list is empty -- hands out the next fresh page number and grows the file by one; Pager::dealloc_page(id) turns any list s not containing id into s + [id], refuses page zero, writes the freed page's free-format image at its own page id as a whole page and caches it; every frame either function puts into the cache is dirty or already written.",
+            "Outside: that each non-free page is owned by exactly one tree node or overflow chain (an invariant over the whole file: B-tree and cell code through the pager), who calls dealloc_page and when (no double free is a stated precondition), VACUUM/DROP returning pages.",
+            "Verus contracts on verbatim-extracted generic functions (type parameters erased by declared substitutions) against an abstract free-list view", "4 C11"),
+    'C12': ("Decided for all inputs (Verus): the page cache never loses a frame -- insert/evict/remove/clear keep every cached frame unless it is handed back to the caller, evict only free frames and always finds one if any exists, out-of-memory only when every frame is pinned, clear keeps the configured capacity; Pager::cache_frame writes every dirty evictee back as a whole page at its own page id before it leaves the cache; every TryFrom<&MemFrame> for WriteLatch<_> marks the frame dirty (and keeps the page), read latches change nothing; allocate_page/dealloc_page cache only frames that are dirty or written; (Kani, full domain) DBConfig::new and the builder clamp page size to a power of two in [4096, 65536] for every input.",
+            "Outside: equality of results across configurations end-to-end, worker pool.",
             "Verus contracts on extracted functions + complete Kani harnesses", "4 C12"),
     'C16': ("Decided (Kani): panic-freedom obligations of leaf functions for every input value -- casts, VarInt decoding of arbitrary bytes, evaluator column binding, wire decoders on arbitrary short byte strings, DBConfig::new.",
             "Outside: parser/binder/planner on arbitrary strings, worker loss/hang, post-error state; integer overflow and division by zero in DataType arithmetic and unary minus on MIN are recorded known findings.",
@@ -41,23 +44,22 @@ CLAIMS = {
     'C17': ("Decided for all inputs and all operation sequences satisfying the log invariant (Verus, unbounded): append = sequence push (oversize rejected, state unchanged), block-zero-first placement never reorders, rotation conserves records, force makes disk_log == appended sequence, later forces never overwrite earlier blocks, truncate empties, the log's last LSN is global and push_to_log issues strictly increasing LSNs.",
             "Outside: WalReader (read-ahead cursor) and the byte layout of blocks/records (MemBlock raw-pointer code) are the trusted environment of this unit.",
             "Verus contracts with data-structure invariant + abstract view on verbatim-extracted functions", "4 C17, Appendix A.2"),
-    'C18': ("Decided: NULL-bitmap addressing is an inverse pair, bitmap size/alignment/key offset arithmetic, header id encoding round-trips for ids < 2^63, Tuple::delete on real bytes (Kani, full domain); which version a snapshot is entitled to (Verus, unit snapshot: version.exact).",
-            "Outside: the byte codec (TupleBuilder::build / parse_*), delta chains, vacuum trimming -- beyond the model checker's capacity on this code base (DESIGN M7b).",
-            "complete Kani harnesses + Verus postconditions", "4 C18"),
+    'C18': ("Decided: NULL-bitmap addressing is an inverse pair, bitmap size/alignment/key offset arithmetic, header id encoding round-trips for ids < 2^63, Tuple::delete on real bytes (Kani, full domain); which version a snapshot is entitled to (Verus, unit snapshot: version.exact); on the specified byte format of the delta chain (delta header, change count, per-delta NULL bitmap, change list; only the per-value length is uninterpreted) TupleReader::parse_for_snapshot returns the newest version visible to the reader and Tuple::vaccum_with keeps exactly the leading deltas created at or above the horizon and cuts the rest byte-exactly, all slice/index expressions in bounds (Verus); Tuple::add_version_with: version number, header frame, no-op and failure cases (Verus; creator stamping is the recorded known finding).",
+            "Outside: the value codec (DataType encoders/decoders), TupleBuilder::build, write_delta, and that vacuum never alters what a snapshot decodes (C13; see DESIGN section 5 on why that lemma is not registered).",
+            "Verus contracts with loop invariants on the extracted chain walkers against a byte-format spec + complete Kani harnesses", "4 C18"),
     'C19': ("Decided (Kani, every value of every fixed-width type): == symmetric/reflexive, partial_cmp total, antisymmetric and consistent with ==, equal values feed equal hasher input, for all 21 kind pairs (non-NaN); integer equality/order agree with mathematical value for all pairs with a 32-bit side; casts are value-preserving or refused; VarInt/ZigZag codec round-trips; bounded: text/blob order is bytewise lexicographic (payload lengths 2/3, 9/9, 9/10, every content), the ORDER BY comparator is a consistent total preorder.",
             "Outside: Blob ordering beyond the stated lengths, ORDER BY/DISTINCT operators; comparisons between two 64-bit integers go through f64 (3 recorded known findings).",
             "complete Kani harnesses (loop-free, full-domain) on the real crate", "4 C19"),
-    'C20': ("Decided (Kani, complete): status codes are a bijection; every command/status byte decodes to exactly its unit request/response or an error, a wrong version byte is always an error; Analyze, RowsAffected and VacuumComplete frames decode to exactly the little-endian fields of every payload and encode to exactly that layout for every field value (so they round-trip); every byte string of length 0..3 is answered with Ok/Err without panic; the frame reader rejects every announced length above 16 MiB before reading the body and accepts everything the writer accepts (Verus on read_message/write_message, all lengths).",
-            "Outside: string-carrying frames and Rows result sets (String / Vec<Vec<String>> decoding is beyond the model checker's capacity on this code, DESIGN M16), the untrusted column/row counts passed to Vec::with_capacity, sockets, server rendering.",
-            "complete Kani harnesses on the real crate", "4 C20"),
+    'C20': ("Decided (Kani, complete): status codes are a bijection; every command/status byte decodes to exactly its unit request/response or an error, a wrong version byte is always an error; Analyze, RowsAffected and VacuumComplete frames decode to exactly the little-endian fields of every payload and encode to exactly that layout for every field value (so they round-trip); every byte string of length 0..3 is answered with Ok/Err without panic; the frame reader rejects every announced length above 16 MiB before reading the body and accepts everything the writer accepts (Verus on read_message/write_message, all lengths). The Rows arm of Response::from_bytes and read_string_with_len (Verus, all payloads): every slice expression is in bounds (no panic), nothing is pre-allocated beyond what the payload can hold, payloads shorter than 8 bytes are errors, the column names are exactly the length-prefixed strings laid out after the count, every row has as many values as there are columns.",
+            "Outside: string-carrying requests (Kani capacity, DESIGN M16), the encoder side of Rows and the values inside rows, sockets, server rendering.",
+            "complete Kani harnesses on the real crate + Verus contracts on the extracted frame reader/writer and Rows decoder", "4 C20"),
 }
 
 NA = {
     'C06': "relational equivalence of two whole-pipeline executions under different optimizer choices (memo rewriting over enum trees + index maintenance over pager-backed trees); no single-call contract states 'same multiset of rows'",
     'C07': "UNIQUE/PK enforcement is an index B-tree probe through the pager plus a closure; 'always hold in committed data' is a history invariant over table + index trees, outside both tools",
     'C08': "quantifies over crash points inside recovery and repeated opens of the whole engine; recovery re-executes logical DML/DDL through every layer; the log-side kernels are counted under C17/C01/C02",
-    'C11': "page ownership is an invariant over the whole file; allocate_page/dealloc_page are generic over page types with closures (not extractable) and a live Pager is beyond Kani's capacity here (DESIGN M14)",
-    'C13': "the removal decision is an expression inside a closure inside Catalog::vacuum_btree's loop -- not an item, cannot carry a contract without refactoring; the function-level pieces are obligations of C18/C09",
+    'C13': "the removal decision is an expression inside a closure inside Catalog::vacuum_btree's loop -- not an item, cannot carry a contract without refactoring; Tuple::vaccum_with is under contract (C18, unit versionchain: keeps exactly the deltas at or above the horizon), but the property-level lemma 'no snapshot at or above the horizon decodes differently afterwards' has an abstract counterexample that cannot be exhibited on the real code while the creator-stamping finding is open (DESIGN section 5), so it is not registered",
     'C14': "schedules, deadlock freedom, liveness: Kani has no threads; Verus would need a rewritten model of the parking_lot latches",
     'C15': "DDL executor and catalog are B-tree clients through the pager; Relation (de)serialisation is rkyv-derived; no function-level contract within reach decides transactional DDL",
 }
